@@ -142,7 +142,13 @@ Definition step (cb : callbacks) (hashlen : nat) (fi : finfo) (s0 : ust) : step_
             match assign cb NValue (n_end n) (n_text n) fi with
             | Ok (v, rest) =>
               let n' := match rest with Some t => {| n_end := n_end n; n_text := t |} | None => n end in
-              match store fi v s (u_frags s) (u_idx s) (u_nv s) (u_nr s) (Some (before ++ n' :: after)) (ngv - 1) greq with
+              (* a single value consumed as a group is wrapped again from tree.Fragments by every later field of the
+                 group, and the node is shared: the text an inline field leaves behind is what they see *)
+              let frags' := match fr, rest with
+                            | UV _, Some _ => set_frag (u_frags s) (u_idx s) (UV n')
+                            | _, _ => u_frags s
+                            end in
+              match store fi v s frags' (u_idx s) (u_nv s) (u_nr s) (Some (before ++ n' :: after)) (ngv - 1) greq with
               | Ok s' => Next s' | Err e => Fail e | Panic => Crash
               end
             | Err e => Fail e
